@@ -323,4 +323,96 @@ theorem rep_start {d : Array Nat} {nbF p f p0 : Nat} {ll : Option Nat} {T : Int}
   · unfold itRepStart
     exact ⟨hs.data, hs.len, hs.nf, hs.fm, hs.cf, by simp only; rw [hs.cf], rfl, r1, by simp only; rw [hs.cd, r1]; omega, r1, by simp only; rw [hs.cd, r1]; omega, rfl, by simp only; omega, r2, r3⟩
 
+/-- A padding byte `01` inside the source region is skipped when the region is replayed
+    (`if (repeat_id_byte <= 3) continue;`, extensions.c:176). -/
+theorem rep_skip_one {d : Array Nat} {nbF f g L p0 plen sq sl p : Nat} {ll : Option Nat} {T : Int} {it : Iter}
+    (hR : RSt d nbF f g L p0 plen sq (sl + 1) p ll T it) (hg0 : 0 < g) (hg : g < nbF) (hb : d[sq]? = some 1) (hp : p ≤ d.size) :
+    ∃ it', Steps d it it' [] ∧ RSt d nbF f g L p0 plen (sq + 1) sl p ll T it' := by
+  have hsk : skipExtension d sq (((sl + 1 : Nat)) : Int) = .ok (some (sq + 1, (sl : Int), 1)) := by
+    unfold skipExtension
+    have h1 : ¬ (((sl + 1 : Nat) : Int) = 0) := by omega
+    have h2 : ¬ (((sl + 1 : Nat) : Int) < 1) := by omega
+    simp only [h1, h2, if_false, hb]
+    unfold skipPayload
+    simp only [show (1 : Nat) / 2 = 0 from rfl, show (1 : Nat) % 2 = 1 from rfl, true_and, true_or, if_true]
+    simp only [Res.ok.injEq, Option.some.injEq, Prod.mk.injEq, and_true, true_and]
+    omega
+  have hbody : repeatBody it = .ok (.cont { it with srcData := sq + 1, srcLen := (sl : Int) }) := by
+    unfold repeatBody
+    rw [hR.data, hR.sd, hR.sl, hb]
+    simp only [hsk]
+    have : (1 : Nat) ≤ 3 := by omega
+    simp only [this, if_true]
+  refine ⟨{ it with srcData := sq + 1, srcLen := (sl : Int) }, ?_, ?_⟩
+  · apply Steps.of_next_eq
+    have hcl0 : ¬ it.currLen < 0 := by rw [hR.cl]; omega
+    have hrf0 : 0 < it.repeatFrame := by rw [hR.rf]; exact hg0
+    have c1 : it.repeatFrame < it.nbFrames := by rw [hR.rf, hR.nf]; exact hg
+    have c2 : 0 < it.srcLen := by rw [hR.sl]; omega
+    have hrp : repeatPhase it = repeatPhase { it with srcData := sq + 1, srcLen := (sl : Int) } := by
+      conv => lhs; rw [repeatPhase]
+      simp only [c1, c2, if_true]
+      split <;> simp_all
+    conv => lhs; unfold next
+    conv => rhs; unfold next
+    simp only [hcl0, hrf0, if_false, if_true, hrp]
+  · exact ⟨hR.data, hR.len, hR.nf, hR.fm, hR.cf, hR.rf, hR.rl, hR.rd, hR.rlen, rfl, rfl, hR.cd, hR.cl, hR.ll, hR.tsl⟩
+
+theorem rep_skip_ones {d : Array Nat} {nbF f g L p0 plen p : Nat} {ll : Option Nat} {T : Int} (hg0 : 0 < g) (hg : g < nbF)
+    (hp : p ≤ d.size) : ∀ (k sq sl : Nat) (it : Iter), RSt d nbF f g L p0 plen sq (k + sl) p ll T it →
+    At d sq (List.replicate k 1) → ∃ it', Steps d it it' [] ∧ RSt d nbF f g L p0 plen (sq + k) sl p ll T it' := by
+  intro k
+  induction k with
+  | zero => intro sq sl it hR _; exact ⟨it, Steps.refl d it, by simpa using hR⟩
+  | succ k ih =>
+    intro sq sl it hR hat
+    rw [List.replicate_succ] at hat
+    obtain ⟨h0, hrest⟩ := At.head hat
+    obtain ⟨it1, hs1, hR1⟩ := rep_skip_one (sl := k + sl) (by rw [show k + sl + 1 = k + 1 + sl by omega]; exact hR) hg0 hg h0 hp
+    obtain ⟨it2, hs2, hR2⟩ := ih (sq + 1) sl it1 hR1 hrest
+    exact ⟨it2, by simpa using hs1.trans hs2, by rw [show sq + (k + 1) = sq + 1 + k by omega]; exact hR2⟩
+
+/-- Padding bytes `01` before the first extension are skipped by the main loop; `repeat_data` stays. -/
+theorem ones_steps {d : Array Nat} {nbF cur : Nat} : ∀ (k p : Nat) (it : Iter), St d nbF p cur it → cur < nbF →
+    At d p (List.replicate k 1) → p + k ≤ d.size →
+    ∃ it', Steps d it it' [] ∧ St d nbF (p + k) cur it' ∧ it'.repeatData = it.repeatData ∧ it'.lastLong = it.lastLong := by
+  intro k
+  induction k with
+  | zero => intro p it hs _ _ _; exact ⟨it, Steps.refl d it, by simpa using hs, rfl, rfl⟩
+  | succ k ih =>
+    intro p it hs hcur hat hend
+    rw [List.replicate_succ] at hat
+    obtain ⟨h0, hrest⟩ := At.head hat
+    have hcl : 0 < it.currLen := by rw [hs.cl]; omega
+    have hsk : skipExtension d p ((d.size : Int) - p) = .ok (some (p + 1, (d.size : Int) - p - 1, 1)) := by
+      unfold skipExtension
+      have h1 : ¬ ((d.size : Int) - p = 0) := by omega
+      have h2 : ¬ ((d.size : Int) - p < 1) := by omega
+      simp only [h1, h2, if_false, h0]
+      unfold skipPayload
+      simp only [show (1 : Nat) / 2 = 0 from rfl, show (1 : Nat) % 2 = 1 from rfl, true_and, true_or, if_true]
+    have hmb : mainBody it = .ok (.cont { it with currData := p + 1, currLen := (d.size : Int) - p - 1 }) := by
+      unfold mainBody
+      rw [hs.data, hs.cd, hs.cl, h0, hsk]
+      have ha : ¬ (((p + 1 : Nat) : Int) ≠ it.len - ((d.size : Int) - p - 1)) := by rw [hs.len]; omega
+      simp only [ha, if_false, show (1 : Nat) / 2 = 0 from rfl]
+      simp
+    have hst1 : St d nbF (p + 1) cur { it with currData := p + 1, currLen := (d.size : Int) - p - 1 } :=
+      ⟨hs.data, hs.len, rfl, by simp only; omega, hs.cf, hs.rf, hs.nf, hs.fm⟩
+    obtain ⟨it2, hs2, hst2, hr2, hl2⟩ := ih (p + 1) _ hst1 hcur hrest (by omega)
+    refine ⟨it2, ?_, by rw [show p + (k + 1) = p + 1 + k by omega]; exact hst2, hr2, hl2⟩
+    have hstep : Steps d it { it with currData := p + 1, currLen := (d.size : Int) - p - 1 } [] := by
+      apply Steps.of_next_eq
+      have a1 : ¬ it.currLen < 0 := by omega
+      have a2 : ¬ 0 < it.repeatFrame := by rw [hs.rf]; omega
+      have a3 : ¬ it.frameMax ≤ (it.currFrame : Int) := by rw [hs.fm, hs.cf]; omega
+      conv => lhs; unfold next
+      simp only [a1, a2, a3, if_false]
+      rw [mainLoop_eq]
+      simp only [hcl, if_true, hmb]
+      conv => rhs; unfold next
+      have b1 : ¬ ((d.size : Int) - p - 1 < 0) := by omega
+      simp only [b1, a2, a3, if_false]
+    simpa using hstep.trans hs2
+
 end Opus.ExtProofs
